@@ -1,5 +1,554 @@
 package rules
 
-import "golang.org/x/tools/go/ssa"
+import (
+	"fmt"
+	"go/token"
+	"strings"
 
-func (c *Ctx) ruleR(rule string, in func(*ssa.Function) bool) int { return 0 }
+	"golang.org/x/tools/go/ssa"
+
+	"verif/checker/internal/ir"
+)
+
+// Rule R (loop progress): every natural loop in decoder-reachable library code
+// is (i) a range loop, (ii) a counted loop, or (iii) an input-consuming loop in
+// which every cycle passes a consuming call whose failure / zero count leaves
+// the loop. Anything else is UNDECIDED.
+
+type natLoop struct {
+	header *ssa.BasicBlock
+	body   map[int]bool // block indices incl. header
+}
+
+func naturalLoops(fn *ssa.Function) []*natLoop {
+	byHeader := map[int]*natLoop{}
+	var order []*natLoop
+	for _, b := range fn.Blocks {
+		for _, s := range b.Succs {
+			if s.Dominates(b) { // back edge b -> s
+				l := byHeader[s.Index]
+				if l == nil {
+					l = &natLoop{header: s, body: map[int]bool{s.Index: true}}
+					byHeader[s.Index] = l
+					order = append(order, l)
+				}
+				// nodes that reach b without passing the header
+				stack := []*ssa.BasicBlock{b}
+				for len(stack) > 0 {
+					x := stack[len(stack)-1]
+					stack = stack[:len(stack)-1]
+					if l.body[x.Index] {
+						continue
+					}
+					l.body[x.Index] = true
+					for _, p := range x.Preds {
+						stack = append(stack, p)
+					}
+				}
+			}
+		}
+	}
+	return order
+}
+
+var consumingIDs = map[string]bool{
+	"encoding/binary.Read": true, "io.ReadFull": true, "io.ReadAtLeast": true, "io.ReadAll": true, "io.CopyN": true,
+	"io.Reader.Read": true, "io.ReaderAt.ReadAt": true, "bytes.Buffer.Read": true, "bytes.Reader.Read": true,
+	"bytes.Buffer.ReadByte": true, "bytes.Reader.ReadByte": true, "bytes.Buffer.Next": true, "bytes.Buffer.ReadBytes": true,
+	"github.com/spf13/afero.File.Read": true, M + "/authenticode.SizeReaderAt.ReadAt": true,
+}
+
+// consumers: repo functions all of whose successful returns passed a consuming
+// call (fix-point), i.e. a nil-error return implies input was consumed.
+func (c *Ctx) consumerFuncs() map[*ssa.Function]bool {
+	if c.consumerCache != nil {
+		return c.consumerCache
+	}
+	out := map[*ssa.Function]bool{}
+	fns := c.P.LibFunctions()
+	for changed := true; changed; {
+		changed = false
+		for _, fn := range fns {
+			if out[fn] || len(fn.Blocks) == 0 {
+				continue
+			}
+			// cut the blocks containing consuming calls; if a successful return is
+			// still reachable from entry, the function may succeed without consuming
+			cutBlocks := map[int]bool{}
+			for _, b := range fn.Blocks {
+				for _, i := range b.Instrs {
+					if call, ok := i.(ssa.CallInstruction); ok && c.isConsumingCall(call, out) {
+						cutBlocks[b.Index] = true
+					}
+				}
+			}
+			if len(cutBlocks) == 0 {
+				continue
+			}
+			cut := map[ir.Edge]bool{}
+			for _, b := range fn.Blocks {
+				if cutBlocks[b.Index] {
+					for _, s := range b.Succs {
+						cut[ir.Edge{From: b.Index, To: s.Index}] = true
+					}
+				}
+			}
+			if cutBlocks[0] {
+				out[fn] = true
+				changed = true
+				continue
+			}
+			// a range over a non-empty literal runs its body at least once: when the
+			// body always consumes, the loop's exit edge is only taken after consuming
+			for _, l := range naturalLoops(fn) {
+				if n, ok := constRangeLen(l); ok && n >= 1 && bodyAlwaysPasses(fn, l, cutBlocks) {
+					for _, sct := range l.header.Succs {
+						if !l.body[sct.Index] {
+							cut[ir.Edge{From: l.header.Index, To: sct.Index}] = true
+						}
+					}
+				}
+			}
+			seen, _ := ir.Reach(fn, fn.Blocks[0], cut)
+			ok := true
+			for _, r := range ir.Returns(fn) {
+				if !seen[r.Block().Index] || cutBlocks[r.Block().Index] {
+					continue
+				}
+				if hasErrorResult(fn) && retClass(fn, r) == "fail" {
+					continue
+				}
+				if boolFalseReturn(r) {
+					continue
+				}
+				ok = false
+			}
+			if ok {
+				out[fn] = true
+				changed = true
+			}
+		}
+	}
+	c.consumerCache = out
+	return out
+}
+
+func boolFalseReturn(r *ssa.Return) bool {
+	if len(r.Results) == 0 {
+		return false
+	}
+	k, ok := r.Results[0].(*ssa.Const)
+	return ok && k.Value != nil && k.Value.String() == "false"
+}
+
+func (c *Ctx) isConsumingCall(call ssa.CallInstruction, consumers map[*ssa.Function]bool) bool {
+	id := ir.CallID(call)
+	if consumingIDs[id] {
+		return true
+	}
+	if strings.HasPrefix(id, "golang.org/x/crypto/cryptobyte.String.Read") || strings.HasPrefix(id, "golang.org/x/crypto/cryptobyte.String.Skip") {
+		return true
+	}
+	if call.Common().IsInvoke() && (call.Common().Method.Name() == "Read" || call.Common().Method.Name() == "ReadAt") {
+		return true
+	}
+	if callee := ir.Callee(call); callee != nil && consumers[callee] {
+		return true
+	}
+	return false
+}
+
+// failureExits: for a consuming call, the edges that signal "nothing consumed /
+// failed" must leave the loop.
+func (c *Ctx) failureExits(fn *ssa.Function, l *natLoop, call ssa.CallInstruction) (bool, string) {
+	v, isVal := call.(*ssa.Call)
+	if !isVal {
+		return false, "consuming call in defer/go"
+	}
+	var results []ssa.Value
+	if v.Referrers() != nil {
+		for _, r := range *v.Referrers() {
+			if ex, ok := r.(*ssa.Extract); ok {
+				results = append(results, ex)
+			}
+		}
+	}
+	results = append(results, v)
+	tested := false
+	for _, b := range fn.Blocks {
+		if !l.body[b.Index] || len(b.Succs) != 2 {
+			continue
+		}
+		ifi, ok := b.Instrs[len(b.Instrs)-1].(*ssa.If)
+		if !ok {
+			continue
+		}
+		for _, res := range results {
+			var failSucc *ssa.BasicBlock
+			switch {
+			case isErrorType(res.Type()):
+				if e, nilWhenTrue, ok := ir.NilCheck(ifi.Cond); ok && sameErrValue(e, res) {
+					failSucc = b.Succs[0]
+					if nilWhenTrue {
+						failSucc = b.Succs[1]
+					}
+				} else if e2, ok := isEOFTest(ifi.Cond); ok && sameErrValue(e2, res) {
+					// an EOF test: the EOF edge must leave the loop too
+					_, neg := ir.Peel(ifi.Cond)
+					core, _ := ir.Peel(ifi.Cond)
+					isEq := true
+					if bo, ok := core.(*ssa.BinOp); ok && bo.Op == token.NEQ {
+						isEq = false
+					}
+					if isEq != neg {
+						failSucc = b.Succs[0]
+					} else {
+						failSucc = b.Succs[1]
+					}
+					// (does not count as the error test itself)
+					if c.staysInLoop(fn, l, failSucc) {
+						return false, "the io.EOF outcome of " + ir.CallID(call) + " continues the loop at " + c.Pos(ir.BlockPos(failSucc))
+					}
+					continue
+				}
+			case res.Type().String() == "bool":
+				core, neg := ir.Peel(ifi.Cond)
+				if core == res {
+					failSucc = b.Succs[1]
+					if neg {
+						failSucc = b.Succs[0]
+					}
+				}
+			case isNumeric(res.Type()):
+				// count result compared with 0
+				if cmp, ok := ifi.Cond.(*ssa.BinOp); ok && ir.StripConv(cmp.X) == res {
+					if k, isK := ir.ConstInt(cmp.Y); isK && k == 0 {
+						switch cmp.Op {
+						case token.EQL, token.LEQ:
+							failSucc = b.Succs[0]
+						case token.NEQ, token.GTR:
+							failSucc = b.Succs[1]
+						}
+					}
+				}
+			}
+			if failSucc == nil {
+				continue
+			}
+			tested = true
+			if c.staysInLoop(fn, l, failSucc) {
+				return false, "a failure outcome of " + ir.CallID(call) + " continues the loop at " + c.Pos(ir.BlockPos(failSucc))
+			}
+		}
+	}
+	if !tested {
+		return false, "no result of " + ir.CallID(call) + " is tested inside the loop"
+	}
+	return true, ""
+}
+
+// staysInLoop: from block b the loop header is reachable without leaving the loop.
+func (c *Ctx) staysInLoop(fn *ssa.Function, l *natLoop, b *ssa.BasicBlock) bool {
+	if !l.body[b.Index] {
+		return false
+	}
+	seen := map[int]bool{b.Index: true}
+	stack := []*ssa.BasicBlock{b}
+	for len(stack) > 0 {
+		x := stack[len(stack)-1]
+		stack = stack[:len(stack)-1]
+		if x == l.header {
+			return true
+		}
+		for _, s := range x.Succs {
+			if l.body[s.Index] && !seen[s.Index] {
+				seen[s.Index] = true
+				stack = append(stack, s)
+			}
+		}
+	}
+	return false
+}
+
+func (c *Ctx) classifyLoop(fn *ssa.Function, l *natLoop) (class string, ok bool, detail string) {
+	// (i) range loops: a Next instruction or the rangeindex idiom (phi i = [-1, i+1], i+1 < len)
+	for _, b := range fn.Blocks {
+		if !l.body[b.Index] {
+			continue
+		}
+		for _, i := range b.Instrs {
+			if _, isNext := i.(*ssa.Next); isNext {
+				return "range", true, ""
+			}
+		}
+	}
+	// counted loop: header (or a body block) ends in If on a comparison one side of
+	// which is/derives from a header phi whose back-edge value is phi +/- positive const
+	for _, i := range l.header.Instrs {
+		phi, isPhi := i.(*ssa.Phi)
+		if !isPhi || !isNumeric(phi.Type()) {
+			continue
+		}
+		step := int64(0)
+		for k, e := range phi.Edges {
+			if !l.body[l.header.Preds[k].Index] {
+				continue
+			}
+			if bo, ok := ir.StripConv(e).(*ssa.BinOp); ok && (bo.Op == token.ADD || bo.Op == token.SUB) && ir.StripConv(bo.X) == ssa.Value(phi) {
+				if n, isK := ir.ConstInt(bo.Y); isK && n != 0 {
+					step = n
+					if bo.Op == token.SUB {
+						step = -n
+					}
+				}
+			} else {
+				step = 0
+				break
+			}
+		}
+		if step == 0 {
+			continue
+		}
+		// some exit test of the loop compares (a value derived from) phi
+		for _, b := range fn.Blocks {
+			if !l.body[b.Index] || len(b.Succs) != 2 {
+				continue
+			}
+			exits := !l.body[b.Succs[0].Index] || !l.body[b.Succs[1].Index]
+			ifi, isIf := b.Instrs[len(b.Instrs)-1].(*ssa.If)
+			if !exits || !isIf {
+				continue
+			}
+			if cmp, ok := ifi.Cond.(*ssa.BinOp); ok {
+				lx, ly := leafSet(cmp.X), leafSet(cmp.Y)
+				_, inX := lx[resolvedPath(phi)]
+				_, inY := ly[resolvedPath(phi)]
+				bo, _ := phiNext(phi, l)
+				if bo != nil {
+					_, nx := lx[resolvedPath(bo)]
+					_, ny := ly[resolvedPath(bo)]
+					inX, inY = inX || nx, inY || ny
+				}
+				if inX || inY {
+					return "counted", true, ""
+				}
+			}
+		}
+	}
+	// (iii) consuming loop
+	consumers := c.consumerFuncs()
+	var calls []ssa.CallInstruction
+	cutBlocks := map[int]bool{}
+	for _, b := range fn.Blocks {
+		if !l.body[b.Index] {
+			continue
+		}
+		for _, i := range b.Instrs {
+			if call, ok := i.(ssa.CallInstruction); ok && c.isConsumingCall(call, consumers) {
+				calls = append(calls, call)
+				cutBlocks[b.Index] = true
+			}
+		}
+	}
+	if len(calls) == 0 {
+		// loop over a buffer length: for x.Len() != 0 { x.Read(...) } handled above as consuming; nothing here
+		return "unknown", false, "loop is neither a range loop, a counted loop nor an input-consuming loop"
+	}
+	// every cycle passes a consuming block: removing them leaves no path header -> header
+	if !cutBlocks[l.header.Index] {
+		seen := map[int]bool{}
+		stack := []*ssa.BasicBlock{}
+		for _, s := range l.header.Succs {
+			if l.body[s.Index] && !cutBlocks[s.Index] {
+				stack = append(stack, s)
+			}
+		}
+		for len(stack) > 0 {
+			x := stack[len(stack)-1]
+			stack = stack[:len(stack)-1]
+			if seen[x.Index] {
+				continue
+			}
+			seen[x.Index] = true
+			if x == l.header {
+				return "consuming", false, "a cycle of the loop passes no input-consuming call"
+			}
+			for _, s := range x.Succs {
+				if l.body[s.Index] && !cutBlocks[s.Index] {
+					stack = append(stack, s)
+				}
+			}
+		}
+	}
+	// progress by a length test on the same buffer: for b.Len() != 0 { b.Read(..) }
+	if c.lenGuardedBufferLoop(fn, l, calls) {
+		return "consuming(len-guarded)", true, ""
+	}
+	for _, call := range calls {
+		if ok, why := c.failureExits(fn, l, call); !ok {
+			// one consuming call with a proper exit on every cycle would suffice, but
+			// each call that can stall must exit: require it for all
+			return "consuming", false, why
+		}
+	}
+	return "consuming", true, ""
+}
+
+func phiNext(phi *ssa.Phi, l *natLoop) (*ssa.BinOp, bool) {
+	for k, e := range phi.Edges {
+		if l.body[phi.Block().Preds[k].Index] {
+			if bo, ok := ir.StripConv(e).(*ssa.BinOp); ok {
+				return bo, true
+			}
+		}
+	}
+	return nil, false
+}
+
+// lenGuardedBufferLoop: the loop's exit test is x.Len() != 0 / > 0 (or Empty())
+// on an in-memory buffer x, and a consuming method on the same x is called on
+// every cycle (bytes.Buffer/bytes.Reader/cryptobyte reads consume when Len() > 0).
+func (c *Ctx) lenGuardedBufferLoop(fn *ssa.Function, l *natLoop, calls []ssa.CallInstruction) bool {
+	for _, b := range fn.Blocks {
+		if !l.body[b.Index] || len(b.Succs) != 2 {
+			continue
+		}
+		ifi, isIf := b.Instrs[len(b.Instrs)-1].(*ssa.If)
+		if !isIf {
+			continue
+		}
+		var lenCall *ssa.Call
+		if cmp, ok := ifi.Cond.(*ssa.BinOp); ok {
+			if lc, ok := ir.StripConv(cmp.X).(*ssa.Call); ok {
+				lenCall = lc
+			}
+		}
+		if lenCall == nil {
+			continue
+		}
+		id := ir.CallID(lenCall)
+		if id != "bytes.Buffer.Len" && id != "bytes.Reader.Len" {
+			continue
+		}
+		recv := resolvedPath(lenCall.Call.Args[0])
+		for _, call := range calls {
+			cid := ir.CallID(call)
+			if strings.HasPrefix(cid, "bytes.Buffer.Read") || strings.HasPrefix(cid, "bytes.Reader.Read") || cid == "bytes.Buffer.Next" {
+				if resolvedPath(call.Common().Args[0]) == recv {
+					return true
+				}
+			}
+		}
+	}
+	return false
+}
+
+func (c *Ctx) ruleR(rule string, in func(*ssa.Function) bool) int {
+	n := 0
+	counts := map[string]int{}
+	for _, fn := range c.P.LibFunctions() {
+		if in != nil && !in(fn) {
+			continue
+		}
+		for _, l := range naturalLoops(fn) {
+			n++
+			class, ok, detail := c.classifyLoop(fn, l)
+			key := ordinalKey(counts, name(fn)+":loop")
+			construct := strings.TrimPrefix(key, name(fn)+":")
+			pos := c.Pos(ir.BlockPos(l.header))
+			what := fmt.Sprintf("loop must make progress on every iteration (class: %s)", class)
+			o := reportObl(rule, name(fn), construct, pos, what, "ok")
+			o.Trivial = class == "range" || class == "counted"
+			switch {
+			case ok:
+			case class == "unknown":
+				o.Status, o.Detail = "undecided", detail
+			default:
+				o.Status, o.Detail = "violation", detail
+			}
+			c.R.Add(o)
+		}
+	}
+	return n
+}
+
+// constRangeLen recognises the lowered `for range <literal of N elements>` loop
+// and returns N.
+func constRangeLen(l *natLoop) (int64, bool) {
+	if len(l.header.Instrs) == 0 {
+		return 0, false
+	}
+	ifi, ok := l.header.Instrs[len(l.header.Instrs)-1].(*ssa.If)
+	if !ok {
+		return 0, false
+	}
+	cmp, ok := ifi.Cond.(*ssa.BinOp)
+	if !ok || cmp.Op != token.LSS {
+		return 0, false
+	}
+	// left side: phi + 1 where phi starts at -1
+	inc, ok := cmp.X.(*ssa.BinOp)
+	if !ok || inc.Op != token.ADD {
+		return 0, false
+	}
+	phi, ok := inc.X.(*ssa.Phi)
+	if !ok || phi.Block() != l.header {
+		return 0, false
+	}
+	start := false
+	for k, e := range phi.Edges {
+		if !l.body[l.header.Preds[k].Index] {
+			if n, isK := ir.ConstInt(e); isK && n == -1 {
+				start = true
+			}
+		}
+	}
+	if !start {
+		return 0, false
+	}
+	if n, isK := ir.ConstInt(cmp.Y); isK {
+		return n, true
+	}
+	if lc, ok := cmp.Y.(*ssa.Call); ok && ir.CallID(lc) == "builtin.len" {
+		if n, ok := byteLen(lc.Call.Args[0]); ok {
+			return n, true
+		}
+		if sl, ok := lc.Call.Args[0].(*ssa.Slice); ok && sl.Low == nil && sl.High == nil {
+			if n, ok := byteLenAny(sl.X); ok {
+				return n, true
+			}
+		}
+	}
+	return 0, false
+}
+
+// bodyAlwaysPasses: every path header -> header inside the loop passes a block of set.
+func bodyAlwaysPasses(fn *ssa.Function, l *natLoop, set map[int]bool) bool {
+	if set[l.header.Index] {
+		return true
+	}
+	seen := map[int]bool{}
+	var stack []*ssa.BasicBlock
+	for _, s := range l.header.Succs {
+		if l.body[s.Index] && !set[s.Index] {
+			stack = append(stack, s)
+		}
+	}
+	for len(stack) > 0 {
+		x := stack[len(stack)-1]
+		stack = stack[:len(stack)-1]
+		if seen[x.Index] {
+			continue
+		}
+		seen[x.Index] = true
+		if x == l.header {
+			return false
+		}
+		for _, s := range x.Succs {
+			if l.body[s.Index] && !set[s.Index] {
+				stack = append(stack, s)
+			}
+		}
+	}
+	return true
+}
